@@ -39,10 +39,16 @@ impl<'src: 'run, 'run> RecipeResolver<'src, 'run> {
         }
       }
 
+      let mut continued = false;
+
       for line in &recipe.body {
-        if line.is_comment() && settings.ignore_comments {
+        // only skip the lines that are not evaluated: comment lines which
+        // start a logical line of a linewise recipe
+        if settings.ignore_comments && !recipe.is_script() && !continued && line.is_comment() {
           continue;
         }
+
+        continued = line.is_continuation();
 
         for fragment in &line.fragments {
           if let Fragment::Interpolation { expression, .. } = fragment {
